@@ -11,6 +11,7 @@ import GraphiqModel.Proofs.DMSem
 import GraphiqModel.Proofs.HilbertBridgeMat
 import GraphiqModel.Proofs.HilbertBridgeDensity
 import GraphiqModel.Proofs.HilbertPure
+import Mathlib.Analysis.Matrix.Hermitian
 import Mathlib.Algebra.BigOperators.Intervals
 import Mathlib.Data.Complex.BigOperators
 namespace Graphiq
@@ -386,6 +387,244 @@ theorem isPure_of_rep {n : Nat} {m : Mat} {M : DMat n} (hm : Rep n m M) (hp : M 
   norm_num
 
 end rep
+
+/-! ### soundness of the elimination, and the decision statement -/
+
+section sound0
+open Finset Hilbert
+
+/-- Hermitian on the block `[k, n)` -/
+def BlockHerm (n k : Nat) (C : Nat → Nat → ℂ) : Prop :=
+  ∀ i j, k ≤ i → i < n → k ≤ j → j < n → C j i = star (C i j)
+
+theorem schur_herm {n k : Nat} {C : Nat → Nat → ℂ} (h : BlockHerm n k C) (c : ℝ) :
+    BlockHerm n (k + 1) (fun i j => C i j - ((c : ℝ) : ℂ) * (C i k * star (C j k))) := by
+  intro i j h1 h2 h3 h4
+  have hcstar : star ((c : ℝ) : ℂ) = ((c : ℝ) : ℂ) := by rw [Complex.star_def, Complex.conj_ofReal]
+  show C j i - _ * (C j k * star (C i k)) = star (C i j - _ * (C i k * star (C j k)))
+  rw [star_sub, star_mul', star_mul', star_star, hcstar, h i j (by omega) h2 (by omega) h4]
+  ring
+
+/-- completing the square: the quadratic form of a Hermitian block with positive leading entry `d` is
+    `d |x + S/d|²` plus the quadratic form of the Schur complement -/
+theorem qf_complete_square {n k : Nat} {C : Nat → Nat → ℂ} (h : BlockHerm n k C) (hk : k < n) (d : ℝ) (hd : 0 < d)
+    (hkk : C k k = (d : ℂ)) (v : Nat → ℂ) :
+    ∃ y : ℂ, qf n k C v = (d : ℂ) * (star y * y)
+      + qf n (k + 1) (fun i j => C i j - ((1 / d : ℝ) : ℂ) * (C i k * star (C j k))) v := by
+  have hcstar : star (((1 / d : ℝ) : ℂ)) = ((1 / d : ℝ) : ℂ) := by rw [Complex.star_def, Complex.conj_ofReal]
+  have hS2 : ∑ j ∈ Ico (k + 1) n, star (C j k) * v j = ∑ j ∈ Ico (k + 1) n, C k j * v j := by
+    apply sum_congr rfl
+    intro j hj
+    rw [mem_Ico] at hj
+    rw [h k j (Nat.le_refl _) hk (by omega) hj.2, star_star]
+  have hS1 : ∑ i ∈ Ico (k + 1) n, star (v i) * C i k = star (∑ j ∈ Ico (k + 1) n, C k j * v j) := by
+    rw [star_sum]
+    apply sum_congr rfl
+    intro i hi
+    rw [mem_Ico] at hi
+    rw [h k i (Nat.le_refl _) hk (by omega) hi.2, star_mul']
+    ring
+  obtain ⟨S, hSdef⟩ : ∃ S, S = ∑ j ∈ Ico (k + 1) n, C k j * v j := ⟨_, rfl⟩
+  have hv : v = fun i => if i = k then v k else v i := by
+    funext i; split
+    · next e => rw [e]
+    · rfl
+  refine ⟨v k + ((1 / d : ℝ) : ℂ) * S, ?_⟩
+  rw [qf_schur, hS1, hS2, ← hSdef]
+  conv_lhs => rw [hv]
+  rw [qf_split n k C hk, hS1, ← hSdef, hkk]
+  have hdc : (d : ℂ) * ((1 / d : ℝ) : ℂ) = 1 := by
+    rw [← Complex.ofReal_mul, one_div, mul_inv_cancel₀ (ne_of_gt hd)]; simp
+  rw [star_add, star_mul', hcstar]
+  have e1 : (d : ℂ) * ((star (v k) + ((1 / d : ℝ) : ℂ) * star S) * (v k + ((1 / d : ℝ) : ℂ) * S))
+      = star (v k) * (d : ℂ) * v k + ((d : ℂ) * ((1 / d : ℝ) : ℂ)) * (star (v k) * S)
+        + ((d : ℂ) * ((1 / d : ℝ) : ℂ)) * (star S * v k)
+        + ((d : ℂ) * ((1 / d : ℝ) : ℂ)) * (((1 / d : ℝ) : ℂ) * (star S * S)) := by ring
+  rw [e1, hdc]
+  ring
+
+end sound0
+
+section sound1
+open Finset Hilbert
+
+theorem qf_nonneg_of_square {n k : Nat} {C C' : Nat → Nat → ℂ} (d : ℝ) (hd : 0 < d) (v : Nat → ℂ) (y : ℂ)
+    (e : qf n k C v = (d : ℂ) * (star y * y) + qf n (k + 1) C' v) (h' : 0 ≤ (qf n (k + 1) C' v).re) :
+    0 ≤ (qf n k C v).re := by
+  rw [e]
+  have : ((d : ℂ) * (star y * y)).re = d * Complex.normSq y := by
+    rw [Complex.star_def, ← Complex.normSq_eq_conj_mul_self, ← Complex.ofReal_mul, Complex.ofReal_re]
+  rw [Complex.add_re, this]
+  have := Complex.normSq_nonneg y
+  positivity
+
+/-- **the exact PSD test is sound**: if the elimination answers `true` on a Hermitian block, the block is PSD -/
+theorem psdElim_sound (n : Nat) : ∀ (fuel : Nat) (a : Nat → Nat → GQ), fuel ≤ n →
+    BlockHerm n (n - fuel) (fun i j => gqC (a i j)) → DM.psdElim fuel n a = true →
+    BlockPSD n (n - fuel) (fun i j => gqC (a i j))
+  | 0, a, _, hh, _ => by
+    refine ⟨hh, fun v => ?_⟩
+    unfold qf
+    rw [Nat.sub_zero, Finset.Ico_self]
+    simp
+  | fuel + 1, a, hf, hh, he => by
+    have hk : n - (fuel + 1) < n := by omega
+    have hk1 : n - fuel = n - (fuel + 1) + 1 := by omega
+    have hkk_im : (a (n - (fuel + 1)) (n - (fuel + 1))).im = 0 := by
+      have := hh _ _ (Nat.le_refl _) hk (Nat.le_refl _) hk
+      have h2 := congrArg Complex.im this
+      simp only [Complex.star_def, Complex.conj_im, gqC_im] at h2
+      have : (((a (n - (fuel + 1)) (n - (fuel + 1))).im : Rat) : ℝ) = 0 := by linarith
+      exact_mod_cast this
+    unfold DM.psdElim at he
+    simp only at he
+    split at he
+    · cases he
+    · next hnn =>
+      split at he
+      · next hd0 =>
+        -- zero pivot
+        split at he
+        · next hrow =>
+          have hakk : a (n - (fuel + 1)) (n - (fuel + 1)) = 0 := GQ.ext' hd0 hkk_im
+          rw [List.all_eq_true] at hrow
+          have hzero : ∀ j, n - (fuel + 1) < j → j < n → gqC (a (n - (fuel + 1)) j) = 0 := by
+            intro j h1 h2
+            have := hrow j (List.mem_range.mpr h2)
+            have hle : ¬ j ≤ n - (fuel + 1) := by omega
+            simp only [hle, decide_false, Bool.false_or] at this
+            rw [(isZero_iff _).1 this, map_zero]
+          have ih := psdElim_sound n fuel a (by omega)
+            (by rw [hk1]; exact fun i j h1 h2 h3 h4 => hh i j (by omega) h2 (by omega) h4) he
+          rw [hk1] at ih
+          refine ⟨hh, fun v => ?_⟩
+          have hv : v = fun i => if i = n - (fuel + 1) then v (n - (fuel + 1)) else v i := by
+            funext i; split
+            · next e => rw [e]
+            · rfl
+          rw [hv, qf_split n _ _ hk]
+          have s1 : ∑ j ∈ Ico (n - (fuel + 1) + 1) n, gqC (a (n - (fuel + 1)) j) * v j = 0 := by
+            apply sum_eq_zero; intro j hj; rw [mem_Ico] at hj; rw [hzero j (by omega) hj.2, zero_mul]
+          have s2 : ∑ i ∈ Ico (n - (fuel + 1) + 1) n, star (v i) * gqC (a i (n - (fuel + 1))) = 0 := by
+            apply sum_eq_zero; intro i hi; rw [mem_Ico] at hi
+            have e : gqC (a i (n - (fuel + 1))) = star (gqC (a (n - (fuel + 1)) i)) :=
+              hh _ i (Nat.le_refl _) hk (by omega) hi.2
+            rw [e, hzero i (by omega) hi.2, star_zero, mul_zero]
+          show 0 ≤ (star (v (n - (fuel + 1))) * gqC (a (n - (fuel + 1)) (n - (fuel + 1))) * v (n - (fuel + 1))
+            + star (v (n - (fuel + 1))) * (∑ j ∈ Ico (n - (fuel + 1) + 1) n, gqC (a (n - (fuel + 1)) j) * v j)
+            + ((∑ i ∈ Ico (n - (fuel + 1) + 1) n, star (v i) * gqC (a i (n - (fuel + 1)))) * v (n - (fuel + 1))
+              + qf n (n - (fuel + 1) + 1) (fun i j => gqC (a i j)) v)).re
+          rw [s1, s2, hakk, map_zero]
+          simp only [mul_zero, zero_mul, zero_add]
+          exact ih.nonneg v
+        · cases he
+      · next hd0 =>
+        have hdpos : (0 : Rat) < (a (n - (fuel + 1)) (n - (fuel + 1))).re :=
+          lt_of_le_of_ne (not_lt.mp hnn) (fun e => hd0 e.symm)
+        have hdR : (0 : ℝ) < (((a (n - (fuel + 1)) (n - (fuel + 1))).re : Rat) : ℝ) := by exact_mod_cast hdpos
+        have hkk : gqC (a (n - (fuel + 1)) (n - (fuel + 1))) = ((((a (n - (fuel + 1)) (n - (fuel + 1))).re : Rat) : ℝ) : ℂ) := by
+          apply Complex.ext
+          · simp [gqC_re]
+          · simp [gqC_im, hkk_im]
+        -- entries of the updated matrix on the remaining block
+        have hent : ∀ i j, n - (fuel + 1) + 1 ≤ i → i < n → n - (fuel + 1) + 1 ≤ j → j < n →
+            gqC (Mat.lookupG (Array.ofFn (n := n) fun i' => Array.ofFn (n := n) fun j' =>
+              if n - (fuel + 1) < i'.val ∧ n - (fuel + 1) < j'.val then
+                a i'.val j'.val - GQ.smul (1 / (a (n - (fuel + 1)) (n - (fuel + 1))).re)
+                  (a i'.val (n - (fuel + 1)) * (a j'.val (n - (fuel + 1))).conj)
+              else a i'.val j'.val) i j)
+            = gqC (a i j) - (((1 / (((a (n - (fuel + 1)) (n - (fuel + 1))).re : Rat) : ℝ) : ℝ)) : ℂ)
+                * (gqC (a i (n - (fuel + 1))) * star (gqC (a j (n - (fuel + 1))))) := by
+          intro i j h1 h2 h3 h4
+          have hl := lookupG_ofFn n (fun i' j' => if n - (fuel + 1) < i' ∧ n - (fuel + 1) < j' then
+            a i' j' - GQ.smul (1 / (a (n - (fuel + 1)) (n - (fuel + 1))).re)
+              (a i' (n - (fuel + 1)) * (a j' (n - (fuel + 1))).conj) else a i' j') i j h2 h4
+          have c1 : n - (fuel + 1) < i := by omega
+          have c2 : n - (fuel + 1) < j := by omega
+          simp only [c1, c2, and_self, if_true] at hl
+          rw [hl, map_sub, gqC_smul, map_mul, gqC_conj]
+          congr 2
+          push_cast
+          rfl
+        have hh' := schur_herm hh (1 / (((a (n - (fuel + 1)) (n - (fuel + 1))).re : Rat) : ℝ))
+        have ih := psdElim_sound n fuel _ (by omega)
+          (by
+            rw [hk1]
+            intro i j h1 h2 h3 h4
+            beta_reduce
+            rw [hent j i h3 h4 h1 h2, hent i j h1 h2 h3 h4]
+            exact hh' i j h1 h2 h3 h4) he
+        rw [hk1] at ih
+        have ih' := ih.congr (C' := fun i j => gqC (a i j) - (((1 / (((a (n - (fuel + 1)) (n - (fuel + 1))).re : Rat) : ℝ) : ℝ)) : ℂ)
+                * (gqC (a i (n - (fuel + 1))) * star (gqC (a j (n - (fuel + 1))))))
+          (fun i j h1 h2 h3 h4 => (hent i j h1 h2 h3 h4).symm)
+        refine ⟨hh, fun v => ?_⟩
+        obtain ⟨y, ey⟩ := qf_complete_square hh hk _ hdR hkk v
+        exact qf_nonneg_of_square _ hdR v y ey (ih'.nonneg v)
+
+end sound1
+
+section sound2
+open Finset Hilbert Matrix
+open scoped ComplexOrder
+
+theorem isHermitian_rep_iff {n : Nat} {m : Mat} {M : DMat n} (hm : Rep n m M) :
+    m.isHermitian = true ↔ M.IsHermitian := by
+  constructor
+  · intro h
+    unfold Mat.isHermitian at h
+    rw [List.all_eq_true] at h
+    apply Matrix.IsHermitian.ext
+    intro a b
+    have h1 := h (idx n a) (List.mem_range.mpr (by rw [hm.1]; exact idx_lt n a))
+    rw [List.all_eq_true] at h1
+    have h2 := h1 (idx n b) (List.mem_range.mpr (by rw [hm.1]; exact idx_lt n b))
+    rw [beq_iff_eq] at h2
+    rw [← hm.2 a b, ← hm.2 b a, h2, gqC_conj]
+  · exact isHermitian_of_rep hm
+
+/-- **the model's `is_psd` decides positive semidefiniteness** of the matrix it is given -/
+theorem isPsd_rep_iff {n : Nat} {m : Mat} {M : DMat n} (hm : Rep n m M) : DM.isPsd m = true ↔ M.PosSemidef := by
+  constructor
+  · intro h
+    unfold DM.isPsd at h
+    rw [Bool.and_eq_true] at h
+    have hH := (isHermitian_rep_iff hm).1 h.1
+    have hel := h.2
+    rw [hm.1] at hel
+    have hb : BlockHerm (2 ^ n) (2 ^ n - 2 ^ n) (fun i j => gqC (m.e i j)) := by
+      intro i j _ hi _ hj
+      have e1 := hm.2 (bitsOf n j) (bitsOf n i)
+      have e2 := hm.2 (bitsOf n i) (bitsOf n j)
+      rw [idx_bitsOf n i hi, idx_bitsOf n j hj] at e1 e2
+      show gqC (m.e j i) = star (gqC (m.e i j))
+      rw [e1, e2]
+      exact (hH.apply (bitsOf n j) (bitsOf n i)).symm
+    have hp := psdElim_sound (2 ^ n) (2 ^ n) m.e (Nat.le_refl _) hb hel
+    rw [Nat.sub_self] at hp
+    apply Matrix.PosSemidef.of_dotProduct_mulVec_nonneg hH
+    intro x
+    have e : qf (2 ^ n) 0 (fun i j => gqC (m.e i j)) (fun i => x (bitsOf n i)) = star x ⬝ᵥ (M *ᵥ x) := by
+      unfold qf
+      rw [Nat.Ico_zero_eq_range, sum_range_pow]
+      unfold dotProduct Matrix.mulVec dotProduct
+      apply sum_congr rfl
+      intro a _
+      rw [sum_range_pow, mul_sum]
+      apply sum_congr rfl
+      intro b _
+      show star (x (bitsOf n (idx n a))) * gqC (m.e (idx n a) (idx n b)) * x (bitsOf n (idx n b))
+        = star (x a) * (M a b * x b)
+      rw [hm.2 a b, bitsOf_idx, bitsOf_idx]
+      ring
+    have hre := hp.nonneg (fun i => x (bitsOf n i))
+    rw [e] at hre
+    have him : (star x ⬝ᵥ (M *ᵥ x)).im = 0 := Matrix.IsHermitian.im_star_dotProduct_mulVec_self hH x
+    rw [Complex.le_def]
+    exact ⟨hre, him.symm⟩
+  · exact isPsd_of_rep hm
+
+end sound2
 
 end C17B
 end Graphiq
